@@ -76,9 +76,29 @@ def gen(rng, k):
     return L
 
 
+def gen_wrap(rng, k):
+    """drive the shared ephemeral-port counter to its wrap-around with one protocol, then
+    take ports with both"""
+    r = rng
+    net = Net(r, nnodes=1)
+    L = net.lines
+    L += ["M udp_new 1 1", "M tcp_new 2 1", "M tcp_new 3 1", "M udp_new 4 1", "M tcp_new 5 1"]
+    L.append("M set_next_port %d" % r.choice([65530, 65532, 65533, 65534, 65534, 65535]))
+    order = [("udp", 1), ("tcp", 2), ("tcp", 3), ("udp", 4), ("tcp", 5)]
+    r.shuffle(order)
+    for pre, i in order:
+        L.append("M %s_open %d 1" % (pre, i))
+        L.append("M %s_bind %d 0 0 0" % (pre, i))
+        L.append("M %s_lep %d" % (pre, i))
+    L.append("M run")
+    return L
+
+
 def generate(rng, tier):
     n = 250 if tier == "quick" else 5000
-    return [("r%d" % k, gen(rng, k)) for k in range(n)]
+    out = [("r%d" % k, gen(rng, k)) for k in range(n)]
+    out += [("w%d" % k, gen_wrap(rng, k)) for k in range(2 if tier == "quick" else 12)]
+    return out
 
 
 def oracle(lines, trace):
@@ -139,6 +159,7 @@ def oracle(lines, trace):
                     exp = 8
                 elif port == 0:
                     exp = None      # ephemeral: checked below
+                    st["asked0"] = (got == 0)
                 elif (addr, port) in reg[proto]:
                     exp = 7
                 else:
@@ -152,6 +173,10 @@ def oracle(lines, trace):
         elif c.endswith("_lep") and e["ret"] and e["ret"][0] == 0:
             fam, a, port = e["ret"][1:4]
             key = ((fam, a), port)
+            if st["bound"] is None and 0 <= port < 1024 and (a != 0 or port != 0) and st.get("asked0"):
+                fails.append(("c11/ephemeral-port", "bind to port 0 yielded port %d" % port))
+            if st.get("asked0") and port == 0 and a != 0:
+                fails.append(("c11/ephemeral-port", "bind to port 0 succeeded but the socket reports port 0"))
             if port != 0:
                 owner = reg[proto].get(key)
                 if owner is not None and owner != s:
